@@ -3,7 +3,7 @@ use crate::rng::Rng;
 use crate::universe::*;
 
 #[derive(Clone, Copy, PartialEq, Eq, Debug)]
-pub enum Kind { General, Soft, ConflictFree, Hints, Tight, Lazy, CycleMerge, SoftBackjump }
+pub enum Kind { General, Soft, ConflictFree, Hints, Tight, Lazy, CycleMerge, SoftBackjump, LazyUnsat }
 
 pub struct Generated { pub u: Universe, pub p: Problem }
 
@@ -133,8 +133,59 @@ pub fn generate_soft_backjump(rng: &mut Rng) -> Generated {
     Generated { u, p }
 }
 
+/// Unsolvable (mostly) problems whose refutation is assembled from facts discovered lazily, one restart at a time:
+/// a chain root -> app -> lib; lib needs a union (x=i | y=j) and some y; every y needs a particular x; some x cannot be
+/// installed, which is only found out once they are selected (missing package, empty version set, or a constrains that
+/// rules out the app). The final level-1 trail then reuses clauses that are already antecedents of learnt clauses.
+pub fn generate_lazy_unsat(rng: &mut Rng) -> Generated {
+    let mut u = Universe::default();
+    let sizes = [rng.range(1, 2) as usize, rng.range(1, 2) as usize, rng.range(2, 4) as usize, rng.range(2, 3) as usize];
+    let mut next_s = 0u32;
+    let mut cands: Vec<Vec<u32>> = Vec::new();
+    for sz in &sizes { cands.push((0..*sz).map(|_| { let s = next_s; next_s += 1; s }).collect()); }
+    let mut next_v = 0u32;
+    let mut any_vs = Vec::new();
+    let mut one_vs: Vec<Vec<u32>> = Vec::new();
+    for (n, cs) in cands.iter().enumerate() {
+        u.vsets.insert(next_v, VSet { name: n as u32, matching: cs.clone() }); any_vs.push(next_v); next_v += 1;
+        let mut ones = Vec::new();
+        for &c in cs { u.vsets.insert(next_v, VSet { name: n as u32, matching: vec![c] }); ones.push(next_v); next_v += 1; }
+        one_vs.push(ones);
+    }
+    let ghost = next_v; u.vsets.insert(next_v, VSet { name: 4, matching: vec![] }); next_v += 1;
+    let no_x = next_v; u.vsets.insert(next_v, VSet { name: 2, matching: vec![] }); next_v += 1;
+    let no_app = next_v; u.vsets.insert(next_v, VSet { name: 0, matching: vec![] }); next_v += 1;
+    let y_sub = next_v; { let ys = &cands[3]; let k = rng.range(1, ys.len() as u64) as usize; let from = rng.below((ys.len() - k + 1) as u64) as usize; u.vsets.insert(next_v, VSet { name: 3, matching: ys[from..from + k].to_vec() }); }
+    let mut next_u = 0u32;
+    for (n, cs) in cands.iter().enumerate() {
+        for (i, &c) in cs.iter().enumerate() {
+            let (reqs, cons): (Vec<Req>, Vec<u32>) = match n {
+                0 => (vec![Req::Single(if rng.chance(1, 2) { any_vs[1] } else { *rng.pick(&one_vs[1]) })], vec![]),
+                1 => {
+                    let un = next_u; next_u += 1;
+                    let mut members = vec![*rng.pick(&one_vs[2]), *rng.pick(&one_vs[3])];
+                    if rng.chance(1, 3) { members.reverse(); }
+                    u.unions.insert(un, members);
+                    let mut r = vec![Req::Union(un), Req::Single(if rng.chance(2, 3) { y_sub } else { any_vs[3] })];
+                    if rng.chance(1, 3) { r.reverse(); }
+                    (r, vec![])
+                }
+                2 => match rng.below(6) { 0 => (vec![Req::Single(ghost)], vec![]), 1 => (vec![Req::Single(no_x)], vec![]), 2 => (vec![], vec![no_app]), 3 => (vec![Req::Single(*rng.pick(&one_vs[3]))], vec![]), _ => (vec![], vec![]) },
+                _ => (vec![Req::Single(*rng.pick(&one_vs[2]))], if rng.chance(1, 5) { vec![*rng.pick(&one_vs[2])] } else { vec![] }),
+            };
+            u.solvs.insert(c, Solv { name: n as u32, rank: i as u32, deps: Deps::Known { reqs, cons } });
+        }
+        u.pkgs.insert(n as u32, Pkg { cands: cs.clone(), ..Default::default() });
+    }
+    let mut p = Problem::default();
+    p.reqs.push(Req::Single(any_vs[0]));
+    if rng.chance(1, 4) { p.reqs.push(Req::Single(*rng.pick(&one_vs[3]))); }
+    Generated { u, p }
+}
+
 pub fn generate_opts(rng: &mut Rng, kind: Kind, force_sparse: bool) -> Generated {
     if kind == Kind::CycleMerge { return generate_cycle_merge(rng); }
+    if kind == Kind::LazyUnsat || (kind == Kind::Lazy && rng.chance(1, 5)) { return generate_lazy_unsat(rng); }
     if kind == Kind::SoftBackjump || (kind == Kind::Soft && rng.chance(1, 6)) { return generate_soft_backjump(rng); }
     // the soft family alternates between general and tight (conflict-heavy) universes
     let soft = kind == Kind::Soft;
